@@ -85,6 +85,13 @@ func fenceMatch(
 				`,"time":` + jsonTimeFormat(details.timestamp) + `}`,
 		}
 	}
+	switch details.command {
+	case "set", "fset", "del":
+	default:
+		// EXPIRE and PERSIST carry the object too, but without its previous
+		// state: they would be announced as a fresh "enter"
+		return nil
+	}
 	if details.obj == nil {
 		return nil
 	}
